@@ -7,6 +7,12 @@ use std::path::Path;
 use std::sync::atomic::{AtomicBool, AtomicI64, AtomicU64, Ordering};
 use std::sync::{Arc, Mutex};
 
+thread_local! {
+    /// id of the client operation whose future is being polled on this thread (0 = none);
+    /// set by the concurrent driver around every poll, read when a hook event is recorded
+    pub static CURRENT_OP: std::cell::Cell<u64> = std::cell::Cell::new(0);
+}
+
 /// (kind, id, location) of a storage file path: kind "blob" | "index" | "other",
 /// location "w" (work dir) | "c" (corrupted dir)
 pub fn classify(path: &Path) -> (String, i64, String) {
@@ -226,6 +232,7 @@ impl Tap for Recorder {
                 v[*n] = json!(x);
             }
         }
+        v["opid"] = json!(CURRENT_OP.with(|c| c.get()));
         if let Some(k) = key {
             // model keys are small numbers in the last 8 bytes
             let n = k.len().min(8);
